@@ -145,9 +145,25 @@ func make64(t uint8) []byte {
 }
 
 type c10Arg struct {
-	Kind string  `json:"k"`
-	Text bool    `json:"t"`
-	Seqs [][]int `json:"s"`
+	Kind  string  `json:"k"`
+	Text  bool    `json:"t"`
+	Seqs  [][]int `json:"s"`
+	Alpha string  `json:"a,omitempty"` // "" = the general alphabet; "late-results" = c10TextLateAlphabet
+}
+
+// c10TextLateAlphabet: text requests whose result is followed by a second, unsolicited result from the leader
+// (expiry of the hold, grant after a wait) before the next request of the connection is sent.
+func c10TextLateAlphabet() []wStep {
+	return []wStep{
+		{Text: []string{"PING"}},
+		{Text: []string{"LOCK", "k2", "LOCK_ID", "b1", "TIMEOUT", "0", "EXPRIED", "1"}},
+		{Text: []string{"LOCK", "k1", "LOCK_ID", "a1", "TIMEOUT", "0", "EXPRIED", "10"}},
+		{Text: []string{"UNLOCK", "k1", "LOCK_ID", "a1"}},
+		{Text: []string{"SET", "x", "5", "EX", "1"}},
+		{Text: []string{"GET", "x"}},
+		{Text: []string{"PUSH", "k3", "LOCK_ID", "c1", "TIMEOUT", "0", "EXPRIED", "10"}},
+		{Tick: 3 * sec},
+	}
 }
 
 func c10Alpha(text bool) []wStep {
@@ -215,6 +231,9 @@ func evalC10(c *Ctx, cs EnumCase) EnumResult {
 	res := EnumResult{}
 	var vs []explore.Violation
 	alpha := c10Alpha(a.Text)
+	if a.Alpha == "late-results" {
+		alpha = c10TextLateAlphabet()
+	}
 	distinct := map[string]bool{}
 	for _, sq := range a.Seqs {
 		var steps []wStep
@@ -510,15 +529,23 @@ func c10Cases(quick bool) []EnumCase {
 				if t > len(ss) {
 					t = len(ss)
 				}
-				out = append(out, mkCase(fmt.Sprintf("%s/text=%v/%d-%d", kind, text, f, t-1), c10Arg{kind, text, ss[f:t]}))
+				out = append(out, mkCase(fmt.Sprintf("%s/text=%v/%d-%d", kind, text, f, t-1), c10Arg{Kind: kind, Text: text, Seqs: ss[f:t]}))
 			}
 		}
+	}
+	late := seqsOf(len(c10TextLateAlphabet()), 4)
+	for f := 0; f < len(late); f += 8 {
+		t := f + 8
+		if t > len(late) {
+			t = len(late)
+		}
+		out = append(out, mkCase(fmt.Sprintf("differential/late-results/%d-%d", f, t-1), c10Arg{Kind: "differential", Text: true, Seqs: late[f:t], Alpha: "late-results"}))
 	}
 	for _, E := range []int{2, 5, 9, 30} {
 		if quick && E > 5 {
 			continue
 		}
-		out = append(out, mkCase(fmt.Sprintf("follower-expiry/E%d", E), c10Arg{"follower-expiry", false, [][]int{{E}}}))
+		out = append(out, mkCase(fmt.Sprintf("follower-expiry/E%d", E), c10Arg{Kind: "follower-expiry", Seqs: [][]int{{E}}}))
 	}
 	return out
 }
